@@ -8,14 +8,10 @@
    every link checked against the table), unwinds the stack by Go's rule, and reports
    CallError | ConnClosed | ServerStops | ProcessDies | Broken.
 
-   The full claim
-
-     C11_contained : forall c : cell, applicable c = true -> contained (verdict_of table c) = true
-
-   over all 7 transports x 2 sides x pool off/on x 13 fault classes is FALSE for the tree as
-   pinned: see the C11_contained_refuted_* theorems (one per escaping cell) and
-   C11_contained_refuted.  C11_contained_partial proves it for every other cell, and
-   C11_escapes_exact shows the guard excludes nothing else. *)
+   The full claim C11_contained is proved below for every applicable cell of 7 transports x
+   2 sides x pool off/on x 13 fault classes.  (On the tree as first pinned it was refuted for
+   eight cells; they were repaired in /repo by 6fc72b7, 363c1a3 and 7f6e14b, their replays are
+   kept in corpus/C11-*.json and must now show a contained fault.) *)
 From Coq Require Import String List Bool.
 From HV Require Import Gen.RecoverTable Model.Panic Proofs.PanicProofs.
 Import ListNotations.
@@ -77,9 +73,11 @@ Proof. exact table_accounted_ok. Qed.
 Print Assumptions C11_table_accounted.
 
 (* Beyond the named fault classes: every goroutine the library starts in the anchor files
-   has an effective recover on its entry function — except the listed ones, for which the
-   table shows there is none (C11_goroutine_entries_refuted is exact).  The six client loops
-   and the mock goroutine are the ones a fault class reaches (refuted cells below). *)
+   has an effective recover on its entry function (since 6fc72b7 also the six client
+   send/receive loops) — except four, for which the table shows there is none
+   (C11_goroutine_entries_refuted is exact): the socket accept loop, the mock transport's
+   goroutine, and the reverse provider's dispatch goroutines.  C11_unprotected_entries_covered
+   shows that every fault cell raised on one of them is stopped by a frame further in. *)
 Theorem C11_goroutine_entries_partial : forall g, In g known_goroutines -> unprotected g = false ->
   entry_protected table (snd g) = true.
 Proof. exact goroutine_entries_partial. Qed.
@@ -90,14 +88,35 @@ Theorem C11_goroutine_entries_refuted : forall g, In g unprotected_goroutines ->
 Proof. exact goroutine_entries_refuted. Qed.
 Print Assumptions C11_goroutine_entries_refuted.
 
+(* Fault cells that surface on a goroutine whose entry is unprotected (the mock transport's
+   goroutine for every server-side panic class, the provider's dispatch goroutine) are
+   recovered by an inner frame: Service.Handle's or Service.Process' closure, Provider.process. *)
+Theorem C11_unprotected_entries_covered : forall c : cell,
+  applicable c = true -> on_unprotected_goroutine c = true ->
+  exists f, recovering_frame table c = Some f.
+Proof. exact covered_all. Qed.
+Print Assumptions C11_unprotected_entries_covered.
+
+(* the six client loops recover in the deferred function itself *)
+Theorem C11_client_loops_recover_directly :
+  forallb (fun f => match defers_before table f 1 with
+                    | [d] => dfn_recovers d
+                    | _ => false
+                    end)
+          ["socket.conn.Send"; "socket.conn.Receive"; "udp.conn.Send"; "udp.conn.Receive";
+           "websocket.conn.Send"; "websocket.conn.Receive"] = true.
+Proof. exact client_loop_defer_is_direct. Qed.
+Print Assumptions C11_client_loops_recover_directly.
+
 (* ------------------------------------------------------------------ the property *)
 
-(* Every fault cell other than the refuted ones below: the effect is an error for that call
-   or the loss of that one connection. *)
-Theorem C11_contained_partial : forall c : cell,
-  applicable c = true -> escaped c = false -> contained (verdict_of table c) = true.
-Proof. exact contained_partial. Qed.
-Print Assumptions C11_contained_partial.
+(* EVERY fault cell — 7 transports x {server, client} x pool off/on x 13 fault classes, as far
+   as the combination exists — has the effect of an error for that call or the loss of that
+   one connection: never the end of a serve loop, never the end of the process. *)
+Theorem C11_contained : forall c : cell,
+  applicable c = true -> contained (verdict_of table c) = true.
+Proof. exact contained_all. Qed.
+Print Assumptions C11_contained.
 
 (* ... and then calls on other connections and later calls are unaffected; calls in flight
    on the same connection are affected only when the verdict is ConnClosed. *)
@@ -106,73 +125,6 @@ Theorem C11_contained_spares_others : forall v, contained v = true ->
   (affects v PSameConnInFlight = true -> v = ConnClosed).
 Proof. exact contained_spares_others. Qed.
 Print Assumptions C11_contained_spares_others.
-
-(* The guard is exact: each excluded cell is applicable and is not contained. *)
-Theorem C11_escapes_exact : forall c, escaped c = true ->
-  applicable c = true /\ contained (verdict_of table c) = false.
-Proof. exact escapes_exact. Qed.
-Print Assumptions C11_escapes_exact.
-
-(* REFUTED cells (tree as pinned).  Argument decoding and IO plugins run outside the recover
-   of Service.Process; the panic reaches the goroutine that called Service.Handle, which has
-   no recover in the mock transport and under fasthttp. *)
-Theorem C11_contained_refuted_mock_server_decode_panic :
-  verdict_of table (mk TMock Server false FDecodePanic) = ProcessDies.
-Proof. exact refuted_mock_decode. Qed.
-Print Assumptions C11_contained_refuted_mock_server_decode_panic.
-
-Theorem C11_contained_refuted_mock_server_io_plugin_panic :
-  verdict_of table (mk TMock Server false FIOPluginPanic) = ProcessDies.
-Proof. exact refuted_mock_ioplugin. Qed.
-Print Assumptions C11_contained_refuted_mock_server_io_plugin_panic.
-
-Theorem C11_contained_refuted_fasthttp_server_decode_panic :
-  verdict_of table (mk TFastHttp Server false FDecodePanic) = ProcessDies.
-Proof. exact refuted_fasthttp_decode. Qed.
-Print Assumptions C11_contained_refuted_fasthttp_server_decode_panic.
-
-Theorem C11_contained_refuted_fasthttp_server_io_plugin_panic :
-  verdict_of table (mk TFastHttp Server false FIOPluginPanic) = ProcessDies.
-Proof. exact refuted_fasthttp_ioplugin. Qed.
-Print Assumptions C11_contained_refuted_fasthttp_server_io_plugin_panic.
-
-(* conn.Exit calls recover() one frame below the deferred function in the three multiplexing
-   clients; a panic in their Send/Receive goroutines kills the process.  Triggers: a
-   websocket message shorter than 4 bytes; a UDP request longer than 65,499 bytes. *)
-Theorem C11_contained_refuted_websocket_client_frame_short :
-  verdict_of table (mk TWebsocket Client false FFrameShort) = ProcessDies.
-Proof. exact refuted_websocket_client_short. Qed.
-Print Assumptions C11_contained_refuted_websocket_client_frame_short.
-
-Theorem C11_contained_refuted_udp_client_oversize_request :
-  verdict_of table (mk TUdp Client false FOversizeRequest) = ProcessDies.
-Proof. exact refuted_udp_client_oversize. Qed.
-Print Assumptions C11_contained_refuted_udp_client_oversize_request.
-
-(* the six client loops all have exactly that shape: one deferred function, no direct
-   recover, a call of a helper that recovers *)
-Theorem C11_client_loops_recover_one_frame_too_deep :
-  forallb (fun f => match defers_before table f 1 with
-                    | [d] => negb (dfn_recovers d) && existsb (fun i => match i with ICall _ => true | _ => false end) d
-                    | _ => false
-                    end)
-          ["socket.conn.Send"; "socket.conn.Receive"; "udp.conn.Send"; "udp.conn.Receive";
-           "websocket.conn.Send"; "websocket.conn.Receive"] = true.
-Proof. exact client_loop_defer_is_indirect. Qed.
-Print Assumptions C11_client_loops_recover_one_frame_too_deep.
-
-(* A result larger than 65,499 bytes panics in the UDP server's send goroutine; the panic is
-   recovered, but the recovery reports it to Serve, which closes the server's only socket. *)
-Theorem C11_contained_refuted_udp_server_oversize_response : forall pool,
-  verdict_of table (mk TUdp Server pool FOversizeResponse) = ServerStops.
-Proof. exact refuted_udp_server_oversize_response. Qed.
-Print Assumptions C11_contained_refuted_udp_server_oversize_response.
-
-(* hence the unguarded claim is false for this tree *)
-Theorem C11_contained_refuted :
-  ~ (forall c : cell, applicable c = true -> contained (verdict_of table c) = true).
-Proof. exact contained_refuted. Qed.
-Print Assumptions C11_contained_refuted.
 
 (* ------------------------------------------------------------------ non-vacuity *)
 
@@ -187,35 +139,45 @@ Example helper_recover_does_not :
            {| fname := "Send"; fdefers := [[ICall [IOther; IRecover]; IOther]] |} ] = None.
 Proof. reflexivity. Qed.
 
-(* typical cells meet the guard of C11_contained_partial, with both contained verdicts *)
-Example partial_guard_met_call_error :
+(* typical cells, with both contained verdicts *)
+Example contained_call_error :
   let c := mk TTcp Server true FServicePanic in
-  applicable c = true /\ escaped c = false /\ verdict_of table c = CallError /\
+  applicable c = true /\ verdict_of table c = CallError /\
   recovering_frame table c = Some "core.Service.Process$1".
 Proof. vm_compute. repeat split; reflexivity. Qed.
 
-Example partial_guard_met_conn_closed :
+Example contained_conn_closed :
   let c := mk TWebsocket Server false FFrameShort in
-  applicable c = true /\ escaped c = false /\ verdict_of table c = ConnClosed /\
+  applicable c = true /\ verdict_of table c = ConnClosed /\
   recovering_frame table c = Some "websocket.Handler.receive".
 Proof. vm_compute. repeat split; reflexivity. Qed.
 
-(* the decode panic is caught one level further out than a service panic, by the handler's
-   per-request goroutine — and by nothing where that goroutine has no recover *)
+(* the cells repaired by 6fc72b7 / 363c1a3: where the panic is stopped now *)
+Example repaired_cells :
+  recovering_frame table (mk TWebsocket Client false FFrameShort) = Some "websocket.conn.Receive" /\
+  verdict_of table (mk TWebsocket Client false FFrameShort) = ConnClosed /\
+  recovering_frame table (mk TMock Server false FDecodePanic) = Some "core.Service.Handle$1" /\
+  recovering_frame table (mk TFastHttp Server false FIOPluginPanic) = Some "core.Service.Handle$1" /\
+  verdict_of table (mk TFastHttp Server false FIOPluginPanic) = CallError.
+Proof. vm_compute. repeat split; reflexivity. Qed.
+
+(* a decoding panic is stopped by Service.Handle's closure on every transport; the frames
+   below it on the mock transport's goroutine have no recover of their own *)
 Example decode_panic_stack :
   stack_names table (mk TTcp Server false FDecodePanic)
-  = ["core.Service.Process"; "core.Service.Handle"; "socket.Handler.run"] /\
+  = ["core.Service.Process"; "core.Service.Handle$1"; "core.Service.Handle"; "socket.Handler.run"] /\
   stack_names table (mk TMock Server false FDecodePanic)
-  = ["core.Service.Process"; "core.Service.Handle"; "mock.Handler.Handler"; "mock.agent.Handler";
-     "mock.Transport.Transport$1"].
-Proof. vm_compute. split; reflexivity. Qed.
+  = ["core.Service.Process"; "core.Service.Handle$1"; "core.Service.Handle"; "mock.Handler.Handler";
+     "mock.agent.Handler"; "mock.Transport.Transport$1"] /\
+  on_unprotected_goroutine (mk TMock Server false FDecodePanic) = true.
+Proof. vm_compute. repeat split; reflexivity. Qed.
 
-Example cell_counts : length cells = 130%nat /\ length known_escapes = 8%nat.
+Example cell_counts : length cells = 130%nat /\ length known_escapes = 0%nat.
 Proof. vm_compute. split; reflexivity. Qed.
 
 (* the guard of C11_goroutine_entries_partial is met by the goroutines that face the peers *)
 Example protected_goroutines_exist :
   let g := ("socket.Handler.Serve", "socket.Handler.receive") in
   In g known_goroutines /\ unprotected g = false /\ entry_protected table (snd g) = true /\
-  length known_goroutines = 21%nat /\ length unprotected_goroutines = 10%nat.
+  length known_goroutines = 21%nat /\ length unprotected_goroutines = 4%nat.
 Proof. vm_compute. repeat split; try reflexivity. do 2 right. left. reflexivity. Qed.
